@@ -16,7 +16,8 @@
     field: strings on which [split_words], [CS::split], [is_alphabetic], [is_punctuation] are applied
     WITHOUT clean / normalisation — used to sweep all scalar values). *)
 From TU Require Import Base C20_Model UCD_Model.
-From TU Require UAX29_Model NFKC_Model NFKC_Tie.
+From TU Require Import UAX29_Model NFKC_Model NFKC_Tie.
+From TU Require Import Base C20_Model UCD_Model.   (* again: the names of this development win over the imported models' *)
 Open Scope N_scope.
 
 (** the line as the worker sees it *)
